@@ -212,5 +212,7 @@ def renumber(lines: list[dict]) -> list[dict]:
         for fld in ('util', 'av'):
             if fld in m:
                 m[fld] = [ids[k] for k in l[fld]]
+        if 'terms' in m:
+            m['terms'] = [dict(t, beta_id=ids[t['beta_id']], var_id=ids[t['var_id']]) for t in l['terms']]
         out.append(m)
     return out
